@@ -39,12 +39,8 @@ def pyvc_unit(prop, uid, build_registry, targets, timeout_ms=None, tiers=('quick
                 d['target'] = t
                 if info['status'] == 'error':
                     d['status'] = 'error'
-                if d['status'] == 'violated':
-                    try:
-                        rp.replay_violation(reg, c, d)
-                    except Exception as ex:      # noqa  replay trouble never changes the verdict
-                        d['replayed'] = False
-                        d['detail'] = (d.get('detail') or '') + ' | replay not possible: %s' % ex
+                if d['status'] == 'violated' and d.get('replayed') is None:
+                    d['replayed'] = False
                 out['results'].append(d)
             # contracts this proof relied on
             for q in sorted(getattr(reg, 'used', set())):
